@@ -199,6 +199,10 @@ def run():
         o = byid[oid]
         docid, path, _ = oid.split('|')
         sig = sig_of(oid, clause, kind, R.roles.get(oid, ''))
+        if clause == 'FieldReadable' and o['found']:     # which spelling of readable= was written ('' = absent)
+            sig['readable'] = o['g']['readable']
+        if clause == 'FieldBits' and o['found']:
+            sig['bits'] = 'set' if o['g']['bits'] > 0 else 'unset'
         if kind == 'constant' and o['found']:
             sig['type'] = o['g']['type'][0]['rname']
         if R.meta.get(docid, {}).get('family') == 'bound':        # 10-bit index fields / 16-bit counts: say which boundary
